@@ -182,6 +182,18 @@ LEX_FAMILIES = {
     "line-directive-long": lambda n: "# " + "1" * (n // 2) + ' "' + "a" * (n // 2),
     "line-flags-long": lambda n: '# 1 "f.c"' + " 1" * (n // 2),
     "pragma-long": lambda n: "#pragma " + "x" * n,
+    "line-fname-backslashes-open": lambda n: '# 1 "' + "\\" * n + "\nint x;\n",
+    "line-fname-backslashes-closed": lambda n: '# 1 "' + "\\" * (2 * (n // 2)) + '"\nint x;\n',
+    "line-fname-escapes-open": lambda n: '# 1 "' + "\\a" * (n // 2) + "\nint x;\n",
+    "line-fname-quotes": lambda n: '# 1 "' + '\\"' * (n // 2) + "\nint x;\n",
+    "line-number-long-bad": lambda n: "#line " + "9" * n + "x\n",
+    "line-blanks": lambda n: "#" + " \t" * (n // 2) + "1" + " " * n + '"f"' + " " * n + "\n",
+    "line-many-flags-bad-tail": lambda n: '# 1 "f.c"' + " 1" * (n // 2) + " x\n",
+    "pragma-blanks": lambda n: "#" + " " * n + "pragma" + "\t " * (n // 2) + "x\n",
+    "hash-run": lambda n: "#" * n,
+    "string-then-bad-escape-runs": lambda n: '"' + "a" * (n // 2) + "\\" + "q" * (n // 2),
+    "wide-prefix-escapes": lambda n: 'L"' + "\\x" * (n // 3) + '"',
+    "nested-quote-mix": lambda n: ("'\"" * (n // 2)),
     "slashes": lambda n: "/" * n,
     "suffix-run": lambda n: "1" + "uUlL" * (n // 4),
     "int-suffix-alt": lambda n: "0x" + "f" * n + "ULLL",
@@ -247,13 +259,15 @@ def lex_time(text):
     errs = []
     lx = S.CLexer(lambda m, l, c: errs.append(1), lambda: None, lambda: None, lambda n: False)
     lx.input(text, "")
-    t0 = time.process_time()
+    # user-mode CPU time of this thread only: system time (page faults under memory pressure) and other
+    # threads must not count
+    t0 = resource.getrusage(resource.RUSAGE_THREAD).ru_utime
     n = 0
     while lx.token() is not None:
         n += 1
         if n > len(text) + 5:
             break
-    return time.process_time() - t0
+    return resource.getrusage(resource.RUSAGE_THREAD).ru_utime - t0
 
 
 def run_shard(spec):
@@ -344,8 +358,11 @@ def run_shard(spec):
                 res["evaluations"] += 1
                 res["nontrivial_distinct"] += 1
                 if t > 2.0:
-                    # CPU time, but confirm: the minimum of three measurements must exceed the threshold
+                    # confirm: the minimum of three measurements, then a run alone in a fresh process, must
+                    # all exceed the threshold (a loaded machine must never turn into a verdict)
                     t = min(t, lex_time(text), lex_time(text))
+                    if t > 2.0:
+                        t = min(t, _alone_user_cpu({"lex_family": name, "n": n}))
                 if t > 2.0:
                     res["violations"].append({"kind": "short-input-takes-seconds-in-the-lexer", "sig": name,
                                               "case": {"lex_family": name, "n": n},
@@ -358,6 +375,32 @@ def run_shard(spec):
     return res
 
 
+_ALONE_CODE = ("import sys, json, time; sys.setrecursionlimit(20000)\n"
+               "from vf.checks import c16\n"
+               "m = json.loads(sys.argv[1])\n"
+               "if 'lex_family' in m:\n"
+               "    c16.lex_time(c16.LEX_FAMILIES[m['lex_family']](m['n']))\n"
+               "elif 'family' in m:\n"
+               "    from vf import sut; sut.load().CParser().parse(c16.FAMILIES[m['family']](m['k']), 'w.c')\n")
+
+
+def _alone_user_cpu(m, wall_timeout=120):
+    """User CPU seconds the marked case needs when run alone in a fresh interpreter, minus the cost of an
+    interpreter that does nothing (so start-up is not counted)."""
+    root = os.path.dirname(os.path.dirname(os.path.dirname(os.path.abspath(__file__))))
+    env = dict(os.environ, PYTHONHASHSEED="0")
+
+    def run(arg):
+        before = resource.getrusage(resource.RUSAGE_CHILDREN).ru_utime
+        try:
+            subprocess.run([sys.executable, "-c", _ALONE_CODE, arg], cwd=root, capture_output=True, timeout=wall_timeout, env=env)
+        except subprocess.TimeoutExpired:
+            pass
+        return resource.getrusage(resource.RUSAGE_CHILDREN).ru_utime - before
+    base = run(json.dumps({}))
+    return max(0.0, run(json.dumps(m)) - base)
+
+
 def on_shard_failure(spec, note):
     """A shard that timed out: re-run the marked case alone and decide on CPU time (never on wall time)."""
     if not note or note.get("why") != "timeout" or not note.get("marker"):
@@ -366,24 +409,10 @@ def on_shard_failure(spec, note):
         m = json.loads(note["marker"])
     except Exception:  # noqa: BLE001
         return None
-    code = ("import sys, json, time; sys.setrecursionlimit(20000)\n"
-            "from vf.checks import c16\n"
-            "m = json.loads(sys.argv[1])\n"
-            "if 'lex_family' in m:\n"
-            "    c16.lex_time(c16.LEX_FAMILIES[m['lex_family']](m['n']))\n"
-            "elif 'family' in m:\n"
-            "    from vf import sut; sut.load().CParser().parse(c16.FAMILIES[m['family']](m['k']), 'w.c')\n")
-    before = resource.getrusage(resource.RUSAGE_CHILDREN)
+    cpu = _alone_user_cpu(m, wall_timeout=120)
     timed_out = False
-    try:
-        subprocess.run([sys.executable, "-c", code, json.dumps(m)], cwd=os.path.dirname(os.path.dirname(os.path.dirname(os.path.abspath(__file__)))),
-                       capture_output=True, timeout=40, env=dict(os.environ, PYTHONHASHSEED="0"))
-    except subprocess.TimeoutExpired:
-        timed_out = True
-    after = resource.getrusage(resource.RUSAGE_CHILDREN)
-    cpu = (after.ru_utime + after.ru_stime) - (before.ru_utime + before.ru_stime)
     res = {"evaluations": 1, "nontrivial_distinct": 1, "violations": [], "samples": [], "counters": {"measurements": 1}, "inconclusive": []}
-    if cpu > 10.0:  # decided on the child's CPU time only; a wall-clock timeout alone is inconclusive
+    if cpu > 10.0:  # decided on the child's user CPU time only; a wall-clock timeout alone is inconclusive
         size = m.get("n") or m.get("k")
         res["violations"].append({"kind": "short-input-takes-seconds" + ("-in-the-lexer" if "lex_family" in m else ""),
                                   "sig": str(m.get("lex_family") or m.get("family")), "case": m,
